@@ -3,6 +3,7 @@
 from __future__ import annotations
 
 import ast
+import re
 
 from sa.core import Ctx
 from sa.op import HASH, TEXT, OPEngine
@@ -216,8 +217,71 @@ def run(ctx: Ctx):
     global_mutations(ctx, "R09.b")
     ctx.rule("R09.c", "no public function of the package modifies a caller-supplied argument in place (a list of options passed twice gives the same result twice)", floor=30)
     argument_mutations(ctx, "R09.c")
+    ctx.rule("R09.d", "nothing on the load -> generate path draws on a per-process or per-call source (sympy.Dummy's global counter, id(), hash(), uuid, random, clocks, process ids)", floor=25)
+    process_dependent_sources(ctx, "R09.d")
     for rel, why in OUT_OF_SCOPE.items():
         ctx.notes.append(f"out of scope for the order analysis: {rel}: {why}")
+
+
+# call tails / dotted prefixes whose result differs between two processes, or between two calls in one process
+PROCESS_SOURCES = {
+    "Dummy": "sympy.Dummy is printed as `<name>_<dummy_index>`; the index is a random base drawn at import plus a process-global counter",
+    "id": "id() is a memory address",
+    "hash": "hash() of a str / bytes depends on PYTHONHASHSEED",
+    "uuid1": "uuid", "uuid4": "uuid", "getpid": "process id", "urandom": "os.urandom", "token_hex": "secrets",
+    "time": "a clock", "time_ns": "a clock", "now": "a clock", "today": "a clock", "utcnow": "a clock", "ctime": "a clock", "strftime": "a clock",
+    "random": "random", "randint": "random", "choice": "random", "shuffle": "random", "sample": "random", "getrandbits": "random", "mkdtemp": "a temporary name", "mkstemp": "a temporary name", "gettempdir": "environment",
+}
+TEXT_PRODUCING = re.compile(r"/(codegen|templates)/|/schemes\.py$|/cli/gotran2|/save\.py$")
+PROCESS_MODULES = {"random", "uuid", "secrets", "time", "datetime", "tempfile"}
+
+
+class _Ref:
+    def __init__(self, node):
+        self.func = node
+        self.lineno = node.lineno
+
+
+def process_dependent_sources(ctx: Ctx, rule: str):
+    """One obligation per function of the modules between load and generated text.  `time`, `random`, `choice` ... are
+    only sources when they are called through their module (time.time(), random.random()) or imported from it; `id`,
+    `hash`, `Dummy` are sources wherever they are called (a local function shadowing them would be the package's own)."""
+    from sa.sm import walk_no_nested
+
+    sm = ctx.sm
+    n = 0
+    for short in sorted(sm.modules):
+        if "/cli/" in short and not short.endswith(("gotran2py.py", "gotran2c.py", "utils.py")):
+            continue
+        imps = sm.module_imports(short)
+        for f in sm.funcs_in(short):
+            n += 1
+            hit = None
+            bound = set(f.params) | {t.id for n_ in walk_no_nested(f.node) for t in ast.walk(n_) if isinstance(t, ast.Name) and isinstance(t.ctx, ast.Store)}
+            for c in walk_no_nested(f.node):
+                # a *reference* counts (sympy.Dummy bound to a local and called later, key=id, key=hash)
+                if not (isinstance(c, (ast.Attribute, ast.Name)) and isinstance(c.ctx, ast.Load)):
+                    continue
+                d = dotted(c) or ""
+                tail = d.split(".")[-1]
+                head = d.split(".")[0]
+                if tail not in PROCESS_SOURCES:
+                    continue
+                if PROCESS_SOURCES[tail] == "a clock" and not TEXT_PRODUCING.search(short):
+                    continue  # timing a load for a log line is not part of what is generated (perf_counter / monotonic never are)
+                origin = imps.get(head, "")
+                if tail in ("Dummy", "id", "hash"):
+                    if tail in ("id", "hash") and ("." in d or tail in bound):
+                        continue
+                    hit = (_Ref(c), tail)
+                elif (origin.split(".")[0] in PROCESS_MODULES) or (head in PROCESS_MODULES and head not in bound and "." in d):
+                    hit = (_Ref(c), tail)
+                if hit:
+                    break
+            if hit is None:
+                ctx.ok(rule, f.key("process-dependent-source"), "no per-process source", f.where(), nontrivial=False)
+            else:
+                ctx.fail(rule, f.key("process-dependent-source"), f"{f.qualname} calls `{norm(hit[0].func)}` ({PROCESS_SOURCES[hit[1]]}): what is generated can differ between two processes or between two calls for the same model", f.where(hit[0]))
 
 
 MUTATORS = {"append", "extend", "insert", "remove", "pop", "clear", "sort", "reverse", "add", "discard", "update", "setdefault", "popitem", "difference_update", "intersection_update", "symmetric_difference_update"}
